@@ -743,6 +743,11 @@ fn prims_arr(v: &Value) -> Option<String> {
     }
 }
 
+/// like prims_arr, scalars included
+fn prims_arr_any(v: &Value) -> Option<String> {
+    prims_arr(v)
+}
+
 /// fused implementation primitives that the Coq development gives a semantics to:
 /// (id in Proofs/Opt.v prim_sem, source of the left-hand side, name in the optimised tree)
 const FUSED: &[(u64, &str, &str)] = &[
@@ -751,6 +756,10 @@ const FUSED: &[(u64, &str, &str)] = &[
     (104, "⊢⍖", "FirstMaxIndex"),
     (105, "⊣⍏", "LastMaxIndex"),
     (112, "⧻◴", "CountUnique"),
+    (113, "⇌⍆", "SortDown"),
+    (114, "⊢⍆", "FirstSort"),
+    (115, "⊣⍆", "LastSort"),
+    (120, "¯⌵", "NegAbs"),
 ];
 
 
@@ -1053,7 +1062,8 @@ fn main() {
                             continue;
                         }
                         let o = run_cfg(&src, &[], 1, 2000);
-                        let val = if o.ok && o.stack.len() == 1 { ints_of(&o.stack).map(|v| v[0]) } else { None };
+                        // the result as a Prims.v array term (integers / characters of any rank)
+                        let val = if o.ok && o.stack.len() == 1 { prims_arr_any(&o.stack[0]) } else { None };
                         if o.ok && val.is_none() {
                             continue;
                         }
@@ -1062,8 +1072,8 @@ fn main() {
                             errs += 1;
                         }
                         let (up, down) = { let f = uiua::verif::flags(&arg.stack[0]); (f.1, f.2) };
-                        println!("{{\"id\":{id},\"arr\":{},\"ok\":{},\"val\":{},\"src\":{},\"marked_up\":{up},\"marked_down\":{down}}}",
-                            jstr(&term), o.ok, val.unwrap_or(0), jstr(&src));
+                        println!("{{\"id\":{id},\"arr\":{},\"ok\":{},\"res\":{},\"src\":{},\"marked_up\":{up},\"marked_down\":{down}}}",
+                            jstr(&term), o.ok, jstr(&val.unwrap_or_default()), jstr(&src));
                     }
                 }
             }
